@@ -408,3 +408,39 @@ def builder_carry_over(ck, F, rid, prefixes):
         else:
             ck.ok(rid, key, fn=b.path, detail=len(carried))
     return n
+
+
+WORD_SIZED = ("usize", "u64", "isize", "i64")
+
+
+def counter_width(ck, F, rid, prefixes):
+    """Counters of live entities (scope guards, span references) are incremented and decremented in step with objects
+    whose number only memory bounds; the `== 0` / `== 1` tests made on them are sound only if the counter cannot wrap
+    before memory runs out, i.e. if it is at least pointer-sized. Every fetch_add / fetch_sub site under `prefixes`."""
+    from rulekit import where
+    n = 0
+    for b in F.body_list:
+        if not any(b.path.startswith(p) or ("<" + p) in b.path[:len(p) + 1] for p in prefixes):
+            continue
+        for bb, t in b.calls():
+            p = t["callee"].get("path") or ""
+            if "atomic::Atomic" not in p or p.rsplit("::", 1)[1] not in ("fetch_add", "fetch_sub"):
+                continue
+            m = __import__("re").search(r"Atomic::<([a-z0-9]+)>|Atomic([A-Z][a-z0-9]+)::", p)
+            ty = (m.group(1) or m.group(2) or "?").lower() if m else "?"
+            o = b.origin(t["argv"][0])
+            what = (o[1].get("static") if o[0] == "const" and isinstance(o[1], dict) else None) or "the counter"
+            what = what.rsplit("::", 1)[-1]
+            n += 1
+            owner = b.path
+            if owner.startswith("<") and " as " in owner:
+                owner = owner[1:].split(" as ")[0].rsplit("::", 1)[-1] + "::" + b.path.rsplit("::", 1)[1]
+            else:
+                owner = "::".join(owner.split("::")[-2:])
+            key = "%s: %s on %s is at least pointer-sized" % (owner, p.rsplit("::", 1)[1], what)
+            if ty in WORD_SIZED:
+                ck.ok(rid, key, fn=b.path, detail=ty)
+            else:
+                ck.bad(rid, key, where(t["sp"]), "the counter is an Atomic<%s>: it wraps to 0 after %s live entities, and the `no scope is live` / `last reference` "
+                       "tests made on it then answer wrongly" % (ty, {"u8": "256", "u16": "65536", "u32": "2^32"}.get(ty, "few")), fn=b.path)
+    return n
